@@ -48,6 +48,8 @@ func (z *ZapPlugin) New(results []index.Document) (
 func (*ZapPlugin) newWithChunkMode(results []index.Document,
 	chunkMode uint32) (segment.Segment, uint64, error) {
 	s := interimPool.Get().(*interim)
+	verifPoolGet("interim", s)
+	verifYield("new.afterGet")
 
 	var br bytes.Buffer
 	if s.lastNumDocs > 0 {
@@ -81,6 +83,8 @@ func (*ZapPlugin) newWithChunkMode(results []index.Document,
 		s.lastNumDocs = len(results)
 		s.lastOutSize = len(br.Bytes())
 		sb.setBytesWritten(totalBytesWritten)
+		verifYield("new.beforePut")
+		verifPoolPut("interim", s)
 		interimPool.Put(s)
 	}
 
